@@ -123,6 +123,23 @@ fn block_txs(c: &mut Chain, rng: &mut Rng, op: &BlockOp) -> Vec<Transaction> {
             txs.push(tx);
         }
     }
+    // now and then an NFT is minted (Bound-Normal-Bound group, fee-paying like any other transaction);
+    // its group later crosses the window edge as a unit
+    if rng.chance(1, 5) {
+        let user = 1 + rng.usize_below(n_users);
+        let to = 1 + rng.usize_below(n_users);
+        let mine: Vec<SlipRef> = c.spendable(&c.keys[user].pk).into_iter().filter(|s| !used.contains(&s.key()) && s.amount > 100 && s.stype == saito_core::core::consensus::slip::SlipType::Normal).collect();
+        if !mine.is_empty() {
+            let inp = mine[rng.usize_below(mine.len())].clone();
+            used.push(inp.key());
+            let fee = op.fee.min(inp.amount / 4);
+            let rest = inp.amount - fee;
+            let deposit = if rng.chance(1, 3) { 1 + rng.below(1500).min(rest / 2) } else { rest / 2 };
+            let tag = c.tag();
+            let ts = c.tip_rec().ts + tag;
+            txs.push(make_nft_tx(&c.keys[user].clone(), &inp, &c.keys[to].pk.clone(), deposit, rest - deposit, ts, &tag.to_le_bytes()));
+        }
+    }
     if txs.is_empty() {
         let tag = c.tag();
         let ts = c.tip_rec().ts + tag;
@@ -197,7 +214,7 @@ impl Scenario for C02 {
     fn meta(&self) -> Meta {
         Meta {
             level: "exploration",
-            rule: "run = producer node (builds every block on its own tip with the real Block::create and validates it itself) over genesis period 3..10 for up to 30/120 blocks: 1-4 payments per block with fee classes {0, small, occasionally large}, 0-2 hop routing paths, four golden-ticket patterns (alternating, 2-of-3, streaks and gaps, random), issuance scales {1e3, 1e6, 4e13 per slip}; rebroadcasts start when the window wraps. One third of the runs add a competing fork built by a second producer that replayed the shared prefix, delivered to an observer node after the main chain (reorganisation across payouts and rebroadcasts). One quarter add a hostile transaction whose output sum wraps 2^64, through the pool or inside a block. Oracle after every accepted block, on every node, in u128: in-window non-Bound spendable value + treasury + graveyard + previous_block_unpaid + total_fees(tip) == issued; the node's in-window value equals the reference replay; no accepted user transaction has outputs > inputs. distinct_nontrivial = distinct history digests with >= 1 golden-ticket payout, >= 1 fee-paying transaction and >= 1 rebroadcast block.",
+            rule: "run = producer node (builds every block on its own tip with the real Block::create and validates it itself) over genesis period 3..10 for up to 30/120 blocks: 1-4 payments per block with fee classes {0, small, occasionally large}, 0-2 hop routing paths, an NFT minted (Bound-Normal-Bound group, possibly fee-paying) in about one block of five, four golden-ticket patterns (alternating, 2-of-3, streaks and gaps, random), issuance scales {1e3, 1e6, 4e13 per slip}; rebroadcasts start when the window wraps. One third of the runs add a competing fork built by a second producer that replayed the shared prefix, delivered to an observer node after the main chain (reorganisation across payouts and rebroadcasts). One quarter add a hostile transaction whose output sum wraps 2^64, through the pool or inside a block. Oracle after every accepted block, on every node, in u128: in-window non-Bound spendable value + treasury + graveyard + previous_block_unpaid + total_fees(tip) == issued; the node's in-window value equals the reference replay; no accepted user transaction has outputs > inputs. distinct_nontrivial = distinct history digests with >= 1 golden-ticket payout, >= 1 fee-paying transaction and >= 1 rebroadcast block.",
             real: &["Block::create/generate_consensus_values/validate", "Transaction::generate_total_fees/validate", "Blockchain::add_block/check_total_supply", "Mempool::add_transaction_if_validates", "Storage (block files read back for rebroadcast)"],
             stubs: &["SimIo", "SimConfig", "vendored ahash"],
             assumptions: &["staking off in this family", "timestamps >= 2 heartbeats apart so that the routing-work requirement is zero"],
